@@ -1037,7 +1037,7 @@ func TestHarness(t *testing.T) {
 		"(direct Suspend/Resume or through the real suspending BlobAccess/DirectoryFetcher decorators; nested, overlapping, zero-length, starting/ending exactly at timer expiries), "+
 		"1-3 contexts/timers with timeouts 0..50 and 10000, maximumSuspension 0..40, threshold 1..8, cancellation by CancelFunc/parent/Stop at random and at model-predicted expiry instants "+
 		"with both tie orders; in 2/5 of the histories base timer expiries and base deadlines are handled up to g=1..12 ticks late with suspend/resume/cancel in between; non-trivial = some context or timer completed by deadline strictly later than creation+timeout (compensated) and at least two reads overlapped; "+
-		"distinct = hash of the op list. part 2: every call path of NewSuspendingBlobAccess/NewSuspendingDirectoryFetcher x outcome x buffer consumption, suspends==resumes==1")
+		"distinct = hash of the op list. part 3: the real localBuildExecutor.Execute on the real clock with a fake runner that ends by itself (exit 0 / non-zero / runner error, at random instants and at the model-predicted kill instant with both tie orders) or is killed by its context, 0-7 reads stalling the worker while the command runs; status code, exit code, virtual_execution_duration and end of the run stage compared with execRun and judged by a monitor. part 2: every call path of NewSuspendingBlobAccess/NewSuspendingDirectoryFetcher x outcome x buffer consumption, suspends==resumes==1")
 	drv, err := hx.StartDriver("susclock")
 	if err != nil {
 		fmt.Fprintln(os.Stderr, "cannot start model driver:", err)
@@ -1077,6 +1077,8 @@ func TestHarness(t *testing.T) {
 		}
 		if len(f.History) > 0 && strings.HasPrefix(f.History[0], "wrap ") {
 			replayWrappers(res, f.History)
+		} else if len(f.History) > 0 && strings.HasPrefix(f.History[0], "xcfg ") {
+			replayExecutor(t, res, drv, f.History)
 		} else if len(f.History) > 0 {
 			c, err := parseConfig(f.History[0])
 			if err != nil {
@@ -1096,6 +1098,11 @@ func TestHarness(t *testing.T) {
 	}
 
 	runWrappers(res, hx.NewRand(o.Seed+7777), o)
+	if len(res.Findings) == 0 && !runExecutor(t, res, drv, hx.NewRand(o.Seed+424242), o) {
+		res.ModelLines = drv.Lines
+		res.Write(o)
+		return
+	}
 
 	histories := 10000 * o.Scale
 	if o.Tier == "thorough" {
